@@ -98,6 +98,7 @@ func (fx *Fx) execRange(st *State, s *ast.RangeStmt) {
 		case *types.Slice:
 			x := fx.eval(st, s.X)
 			x.T = c.define("rng", "Slice", x.T)
+			fx.wfSlice(st, x.T)
 			n = "(s_len " + x.T + ")"
 			elemAt = func(t *State, k string) *Val {
 				l := &Loc{kind: locElem, key: "E:" + typeKey(uu.Elem()), srt: c.sortOf(uu.Elem()), ref: "(s_base " + x.T + ")", idx: fmt.Sprintf("(+ (s_off %s) %s)", x.T, k), T: uu.Elem()}
